@@ -611,7 +611,8 @@ class Interp:
                                 v = self.eval(c.class_assigns[attr], {})
                             except (Undecidable, Raised):
                                 break
-                            if isinstance(v, (Residual, Obj)) or not isinstance(v, (str, int, float, tuple)):
+                            import re as _re
+                            if isinstance(v, (Residual, Obj)) or not isinstance(v, (str, int, float, tuple, _re.Pattern)):
                                 break
                         if isinstance(v, (list, dict, set)):
                             # a class-level container is one shared object: later reads and mutations see the same one
@@ -997,10 +998,13 @@ class Interp:
             elif ckey == pat or ckey.endswith("." + pat):
                 return Residual(full)
         # pure stdlib modules on concrete values
-        if ckey and ckey.split(".")[0] in ("operator", "math") and ckey.count(".") == 1:
+        if ckey and ckey.split(".")[0] in ("operator", "math", "re") and ckey.count(".") == 1:
             import math as _math
-            mod = operator if ckey.startswith("operator.") else _math
+            import re as _re
+            mod = {"operator": operator, "math": _math, "re": _re}[ckey.split(".")[0]]
             fn = getattr(mod, ckey.split(".")[1], None)
+            if mod is _re and ckey.split(".")[1] not in ("compile", "match", "search", "fullmatch", "sub", "split", "findall", "escape"):
+                fn = None
             if fn is not None and not any(isinstance(a, (Residual, Obj)) for a in args):
                 try:
                     return fn(*args)
